@@ -170,6 +170,18 @@ def _subst_val(v, mp):
     return rec(v)
 
 
+def _fold(c):
+    """re-normalise a comparison fact after substitution (constant folding, canonical sign)"""
+    if isinstance(c, tuple) and c and c[0] == "cmp" and isinstance(c[2], Frac):
+        from .absint import mk_cmp
+
+        return mk_cmp(c[1], c[2], poly.ZERO)
+    if isinstance(c, tuple) and c and c[0] == "not":
+        x = _fold(c[1])
+        return (not x) if isinstance(x, bool) else ("not", x)
+    return c
+
+
 def _top_ites(v):
     out = []
     if isinstance(v, Num):
@@ -233,7 +245,12 @@ def expand_cases(facts, ret, writes, max_split=4):
             if c is False or (isinstance(c, tuple) and poly._neg_cond(c) in f):
                 continue
             mp = {atom: val}
-            f2 = f if (c is True or c in f) else f + (c,)
+            # the split condition also resolves the conditional inside the path's own facts
+            fsub = tuple(_fold(_subst_val(x, mp)) for x in f)
+            if any(x is False for x in fsub):
+                continue
+            fsub = tuple(x for x in fsub if x is not True)
+            f2 = fsub if (c is True or c in fsub) else fsub + (c,)
             work.append((f2, _subst_val(r, mp), {k: _subst_val(x, mp) for k, x in w.items()}, depth + 1))
     return out
 
@@ -339,12 +356,12 @@ def compare_class(prop: str, res: Result, repo: Repo, ci: ClassInfo) -> None:
     for pr in cr.paths:
         rw = {ids_r.get(k, k): rename(v, ids_r) for k, v in final_writes(pr).items()}
         for f, r, w in expand_cases(rename(tuple(pr.state.facts), ids_r), rename(pr.ret, ids_r), rw):
-            ref_cases.append((f, r, w, sorted(ids_r.get(d, d) for d in drives(pr)), pr))
+            ref_cases.append((rename(f, ids_r), r, w, sorted(ids_r.get(d, d) for d in drives(pr)), pr))
     code_cases = []
     for pc in ca.paths:
         cw = {ids_c.get(k, k): rename(v, ids_c) for k, v in final_writes(pc).items()}
         for f, r, w in expand_cases(rename(tuple(pc.state.facts), ids_c), rename(pc.ret, ids_c), cw):
-            code_cases.append((f, r, w, sorted(ids_c.get(d, d) for d in drives(pc)), pc))
+            code_cases.append((rename(f, ids_c), r, w, sorted(ids_c.get(d, d) for d in drives(pc)), pc))
     def _feasible(f):
         return not value_contradictory(f)
 
